@@ -79,3 +79,45 @@ Theorem C03_difference_order_refuted :
   = [mkI (Some 2) (Some 3) (Rich 2); mkI (Some 4) (Some 5) (Rich 2); mkI (Some 3) (Some 4) (Rich 1)].
 Proof. vm_compute. reflexivity. Qed.
 Print Assumptions C03_difference_order_refuted.
+
+(* ---------- transforms: buffer and merge_within keep streams ordered (Proofs/Order2.v) ---------- *)
+From CG Require Import Proofs.Transform Proofs.Order2.
+
+(* forward slices of expressions that also contain buffer / merge_within nodes above `good`
+   sub-expressions (class good2): non-empty elements inside the window, no sentinel, ordered by
+   start — for every window whose widened versions stay inside the sentinels *)
+Theorem C03_forward_wf_with_transforms : forall env e a b,
+  good2 env e -> wins e (fst (norm_bounds a b)) (snd (norm_bounds a b)) ->
+  stream_wf (fst (norm_bounds a b)) (snd (norm_bounds a b)) false (slice env e a b false) = true.
+Proof. exact C03_forward_wf2. Qed.
+Print Assumptions C03_forward_wf_with_transforms.
+
+(* reverse slices of towers of merge_within / buffer / filter over a reverse-exact base *)
+Theorem C03_reverse_wf_with_transforms : forall env e a b,
+  rtower env e -> wins e (fst (norm_bounds a b)) (snd (norm_bounds a b)) ->
+  stream_wf (fst (norm_bounds a b)) (snd (norm_bounds a b)) true (slice env e a b true) = true.
+Proof. exact C03_reverse_wf2. Qed.
+Print Assumptions C03_reverse_wf_with_transforms.
+
+(* merge_within: strictly increasing starts, more than the gap apart; the reverse fetch is the
+   reversed forward fetch *)
+Theorem C03_merge_within_ordered : forall env s g a b,
+  0 <= g ->
+  Forall wf_ivl (fetch env s a b false) -> Forall canon_ivl (fetch env s a b false) ->
+  sorted_start (fetch env s a b false) ->
+  strict_start (fetch env (MergeW s g) a b false) /\
+  sorted_start (fetch env (MergeW s g) a b false) /\
+  fetch env (MergeW s g) a b true = rev (fetch env (MergeW s g) a b false) /\
+  strict_desc_start (fetch env (MergeW s g) a b true) /\
+  far_apartP g (fetch env (MergeW s g) a b false).
+Proof. exact mw_fetch_sorted. Qed.
+Print Assumptions C03_merge_within_ordered.
+
+(* buffer: shifting every start by the same amount keeps the order *)
+Theorem C03_buffer_ordered : forall env s before after a b,
+  0 <= before ->
+  Forall (no_underflow before) (fetch env s (addO a (- after)) (addO b before) false) ->
+  sorted_start (fetch env s (addO a (- after)) (addO b before) false) ->
+  sorted_start (fetch env (Buf s before after) a b false).
+Proof. exact buffer_fetch_sorted. Qed.
+Print Assumptions C03_buffer_ordered.
